@@ -342,7 +342,7 @@ func (s *memoryStore) Stats() (*store.Stats, error) {
 		stats.CountBalance(b)
 	}
 	for _, b := range s.trials {
-		stats.CountBalance(b)
+		stats.CountTrialBalance(b)
 	}
 	return &stats, nil
 }
